@@ -35,6 +35,7 @@ import (
 	coinswapkeeper "mods.irisnet.org/modules/coinswap/keeper"
 	farmkeeper "mods.irisnet.org/modules/farm/keeper"
 	htlckeeper "mods.irisnet.org/modules/htlc/keeper"
+	htlctypes "mods.irisnet.org/modules/htlc/types"
 	mtkeeper "mods.irisnet.org/modules/mt/keeper"
 	nftkeeper "mods.irisnet.org/modules/nft/keeper"
 	oraclekeeper "mods.irisnet.org/modules/oracle/keeper"
@@ -96,6 +97,10 @@ type EnvOptions struct {
 	DB dbm.DB
 	// SkipInitChain builds the app without running InitChain (used by genesis import checks).
 	SkipInitChain bool
+	// KeepHostClockGenesis leaves the htlc default genesis' previous_block_time (= time.Now() of the
+	// process, see modules/htlc/types/params_legacy.go) untouched. By default the harness pins it to
+	// GenesisTime so that searches are reproducible; the determinism check (C11) turns this off.
+	KeepHostClockGenesis bool
 }
 
 // Addr returns the deterministic account address for a name.
@@ -156,6 +161,12 @@ func NewEnv(opts EnvOptions) *Env {
 
 	gs := e.App.DefaultGenesis()
 	e.buildGenesis(gs)
+	if !opts.KeepHostClockGenesis {
+		var hg htlctypes.GenesisState
+		e.Cdc.MustUnmarshalJSON(gs[htlctypes.ModuleName], &hg)
+		hg.PreviousBlockTime = GenesisTime
+		gs[htlctypes.ModuleName] = e.Cdc.MustMarshalJSON(&hg)
+	}
 	for mod, f := range opts.GenesisMutators {
 		gs[mod] = f(e.Cdc, gs[mod])
 	}
